@@ -34,6 +34,7 @@ func runC02(w *World, r *Report) {
 	c02Identity(w, r)
 	c02PatchKind(w, r)
 	c02Uninstall(w, r)
+	c01HistoryOrder(w, r, "C02/LATEST-REVISION")
 }
 
 func c02DiffArgs(w *World, r *Report) {
@@ -266,6 +267,25 @@ func c02KeepGuard(w *World, r *Report) {
 			}
 		}
 	}
+	// the annotations consulted are the live object's: read after info.Get() refreshed the object
+	var get ssa.CallInstruction
+	var annoCalls []ssa.CallInstruction
+	for _, c := range callInstrs(up) {
+		f, _ := calleeOf(c.Common())
+		if f != nil && FuncName(f) == "(*k8s.io/cli-runtime/pkg/resource.Info).Get" {
+			get = c
+		}
+		if c.Common().IsInvoke() && c.Common().Method.Name() == "Annotations" {
+			annoCalls = append(annoCalls, c)
+		}
+	}
+	live := get != nil && len(annoCalls) > 0
+	for _, ac := range annoCalls {
+		if get == nil || !g.AfterOK(get, posOf(ac)) {
+			live = false
+		}
+	}
+	r.Check(live, "C02/KEEP-GUARD", "update/live-object", w.InstrPos(del), "the keep policy is read from the object as refreshed from the cluster (after info.Get succeeded)", "the keep policy is not read from the live object (the annotations are read before, or without, info.Get): an out-of-band keep annotation is ignored")
 	// and the test is on the way to every delete: the delete is dominated by the comparison
 	r.Check(ok, "C02/KEEP-GUARD", "update/delete", w.InstrPos(del), "the delete is unreachable on the edge where the live object carries the keep policy", "a resource carrying the keep policy can be deleted (or the policy is no longer consulted)")
 }
